@@ -23,6 +23,8 @@ ASSUMPTIONS = ['REPL model: line oriented, no echo, SIGINT cancels the open bloc
                'sequence of length <= 2 on real bash (TIMEOUT there = inconclusive, never a verdict)',
                'chunk cuts: deviation bound 2 per execution over {middle of the output, output|prompt boundary, inside the prompt}',
                'awaited form: run_command(async_=True) on the controlled real event loop (mc/aio.py), same sequences and cuts']
+EXHAUSTIVE = False      # complete only within the deviation bound, see BOUND_NOTE
+BOUND_NOTE = 'all placements of at most 2 chunk cuts are enumerated completely; more than 2 cuts per command sequence are not explored'
 REQUIRED_FLAGS = {'cut_inside_prompt': 1, 'incomplete_then_ok': 1, 'multiline': 1, 'large': 1, 'real_bash': 1}
 
 PROMPT = replwrap.PEXPECT_PROMPT
